@@ -30,21 +30,27 @@ HARNESSES = [
             'canonical identifiers, every alphanumeric character kept in order',
   'bounds': {'quick': {'defs': {'LMAX': 5}, 'unwind': 8, 'cap': 600},
              'thorough': {'defs': {'LMAX': 8}, 'unwind': 11, 'cap': 3000}}},
- {'id': 'c03_hash_signature',
+] + [
+ {'id': 'c03_hash_signature_k%d_p%d%s' % (k, p1, '' if k == 3 else '_%d' % lo),
   'property': 'C03',
   'src': 'c03_hash_sig.cxx',
   'entry': 'harness_c03_hash_signature',
   'tus': ['src/interrogate/interfaceMaker.cxx', _B],
   'cut': ['_ZN18InterrogateBuilder11hash_stringERKNSt7__cxx1112basic_stringIcSt11char_traitsIcESaIcEEEi'],
   'skip_ctors': ['interfaceMaker.cxx', 'interrogateBuilder.cxx'],
-  'desc': 'InterfaceMaker::hash_function_signature over KMAX remaps with distinct signatures; hash_string replaced by a '
-          'table realising every collision pattern (pairs of set partitions of the signatures at hash level 1 and 2)',
-  'domain': 'KMAX remaps, every pair (partition of first-level hashes, partition of second-level hashes): 5x5 for 3, '
-            '15x15 for 4; keys concrete per pattern (map semantics are order-independent), real std::map over the rbtree model',
+  'desc': 'InterfaceMaker::hash_function_signature over %d remaps with distinct signatures; hash_string replaced by a '
+          'table realising every collision pattern (pairs of set partitions of the signatures at hash level 1 and 2); '
+          'first-level partition no. %d, second-level partitions %d..%d' % (k, p1, lo, hi - 1),
+  'domain': '%d remaps, first-level partition no. %d x second-level partitions %d..%d (all entries together: every pair, 5x5 for 3 '
+            'remaps, 15x15 for 4); keys concrete per pattern (map semantics are order-independent), real std::map over '
+            'the rbtree model' % (k, p1, lo, hi - 1),
   'oracle': 'resulting _hash values pairwise distinct, 4..9 identifier characters, the map maps each final hash to its remap, '
             'abort() and the internal-error paths never reached',
-  'bounds': {'quick': {'defs': {'KMAX': 3}, 'unwind': 60, 'unwindset': dict(DIAG_LOOPS), 'cap': 600},
-             'thorough': {'defs': {'KMAX': 4}, 'unwind': 260, 'unwindset': dict(DIAG_LOOPS), 'cap': 3000}}},
+  'tiers': ('quick', 'thorough') if k == 3 else ('thorough',),
+  'bounds': {t: {'defs': {'KMAX': k, 'P1': p1, 'P2LO': lo, 'P2HI': hi}, 'unwind': 60,
+                 'unwindset': dict(DIAG_LOOPS, **{'_ZL13make_patternsv.%d' % q: 1100 for q in range(5)}), 'cap': 900}
+             for t in ('quick', 'thorough')}}
+ for k, p1, lo, hi in [(3, p1, 0, 5) for p1 in range(5)] + [(4, p1, lo, lo + 5) for p1 in range(15) for lo in (0, 5, 10)]
 ]
 
 PROPERTY_INFO = {'C03': {'level': 'model_checking',
